@@ -89,12 +89,21 @@ class DerivationTree:
             self.__is_open = True
 
     def to_json(self) -> str:
-        the_dict = self.__dict__
-        if "_DerivationTree__k_paths" in the_dict:
-            del the_dict["_DerivationTree__k_paths"]
-        if "_DerivationTree__concrete_k_paths" in the_dict:
-            del the_dict["_DerivationTree__concrete_k_paths"]
-        return json.dumps(the_dict, default=lambda o: o.__dict__)
+        # The k-path caches are not serialized. They must neither be removed from
+        # this object (it is still in use) nor reach the JSON encoder for any subtree.
+        def to_dict(tree: "DerivationTree") -> dict:
+            return {
+                key: (
+                    [to_dict(child) for child in value]
+                    if key == "_DerivationTree__children" and value is not None
+                    else value
+                )
+                for key, value in tree.__dict__.items()
+                if key
+                not in ("_DerivationTree__k_paths", "_DerivationTree__concrete_k_paths")
+            }
+
+        return json.dumps(to_dict(self))
 
     def __getstate__(self) -> bytes:
         return zlib.compress(self.to_json().encode("UTF-8"))
